@@ -352,16 +352,58 @@ func sliceConstLen(v ssa.Value) (int64, bool) {
 	return 0, false
 }
 
-func ceilOperands(fn *ssa.Function) (a, b ssa.Value, n int) {
+// ceilOperands finds the chunk-count computation of fn: math.Ceil(float(a)/float(b)) or the integer form (a+b-1)/b.
+// n counts the candidate computations; other describes a division that is neither form.
+func ceilOperands(fn *ssa.Function) (a, b ssa.Value, n int, other string) {
 	ssax.Instrs(fn, func(ins ssa.Instruction) {
-		cc := ssax.CallOf(ins)
-		if cc == nil || ssax.CalleeName(cc) != "math.Ceil" {
+		if cc := ssax.CallOf(ins); cc != nil && ssax.CalleeName(cc) == "math.Ceil" {
+			n++
+			if bo, ok := cc.Args[0].(*ssa.BinOp); ok && bo.Op == token.QUO {
+				a, b = ssax.Unwrap(bo.X), ssax.Unwrap(bo.Y)
+			}
 			return
 		}
-		n++
-		if bo, ok := cc.Args[0].(*ssa.BinOp); ok && bo.Op == token.QUO {
-			a, b = ssax.Unwrap(bo.X), ssax.Unwrap(bo.Y)
+		bo, ok := ins.(*ssa.BinOp)
+		if !ok || bo.Op != token.QUO {
+			return
 		}
+		if _, isFloat := bo.Type().Underlying().(*types.Basic); isFloat && bo.Type().Underlying().(*types.Basic).Info()&types.IsFloat != 0 {
+			return // the float division inside Ceil
+		}
+		n++
+		// (a + b - 1) / b
+		ev := &ssax.SymEval{}
+		num, den := ev.Eval(bo.X), ev.Eval(bo.Y)
+		d := num.Sub(den) // a - 1 expected
+		if d.Const == -1 && len(d.Terms) == 1 && len(den.Terms) == 1 {
+			// recover a as the operand of the numerator that is not b
+			var find func(v ssa.Value) ssa.Value
+			find = func(v ssa.Value) ssa.Value {
+				v = ssax.Unwrap(v)
+				if x, ok := v.(*ssa.BinOp); ok && (x.Op == token.ADD || x.Op == token.SUB) {
+					for _, o := range []ssa.Value{x.X, x.Y} {
+						if _, isC := ssax.ConstInt(o); isC {
+							continue
+						}
+						e2 := &ssax.SymEval{}
+						if e2.Eval(o).Equal(den) {
+							continue
+						}
+						if r := find(o); r != nil {
+							return r
+						}
+					}
+					return nil
+				}
+				return v
+			}
+			a, b = find(bo.X), ssax.Unwrap(bo.Y)
+			if a == nil {
+				other = "(" + num.String() + ") / (" + den.String() + ")"
+			}
+			return
+		}
+		other = "(" + num.String() + ") / (" + den.String() + ")"
 	})
 	return
 }
@@ -382,8 +424,12 @@ func runR164(c *core.Ctx, cs *ssa.Function) {
 		return
 	}
 	iter := iterCall.Call.StaticCallee()
-	wa, wb, wn := ceilOperands(writer)
-	ia, ib, in := ceilOperands(iter)
+	wa, wb, wn, wo := ceilOperands(writer)
+	ia, ib, in, io := ceilOperands(iter)
+	if wo != "" || io != "" {
+		c.Violate("R16.4", key, c.P.Pos(iterCall.Pos()), "the number of chunks is computed as "+wo+io+", which is neither ceil(length / payload) nor (length + payload - 1) / payload: the writer emits a different number of chunks than the metadata records for some lengths")
+		return
+	}
 	if wn == 0 || in == 0 {
 		c.Info("R16.4", key, c.P.Pos(iterCall.Pos()), "only one computation of the chunk count remains; nothing to compare")
 		return
